@@ -112,7 +112,7 @@ def run_shard(spec):
         if i < 2:
             res["samples"].append(case)
     # --- 4. assembly-level leg
-    nasm = (120 if spec["tier"] == "quick" else 1500) // parts + 1
+    nasm = (800 if spec["tier"] == "quick" else 12000) // parts + 1
     for i in range(nasm):
         mode = rnd.choice(["ascii_ok", "ascii_bad", "char_ok", "char_bad", "dchar_ok", "dchar_bad", "asciz_ok"])
         pool = [c for c in good if c not in "\"\\'/\n\r\t<" and c != "¤"]
@@ -124,7 +124,7 @@ def run_shard(spec):
             while bad in ref_chars:
                 bad = chr(rnd.randrange(0x100, 0x2000))
             chars[rnd.randrange(len(chars))] = bad
-        case = {"kind": "asm", "mode": mode, "chars": "".join(chars)}
+        case = {"kind": "asm", "mode": mode, "chars": "".join(chars), "before": rnd.choice([None, None, "utf-8", "cp866", "koi8-r", "latin-1", "utf-16"])}
         vs = run_case(case, cnt)
         res["violations"].extend(vs)
         cnt["asm_programs"] += 1
@@ -212,6 +212,11 @@ def run_case(case, cnt=None):
                 chars = chars + "A"
             src = "".join(f'.word "{chars[i]}{chars[i + 1]}\n' for i in range(0, len(chars), 2))
             expect = bytes(ref_chars.get(c, 0) for c in chars)
+        if case.get("before"):
+            # the same text assembled for another output charset earlier in this process: whatever that gave, the bk result is the bk table's
+            asm.assemble([("/c14/main.mac", src)], charset=case["before"], wall=30)
+            if cnt is not None:
+                cnt["asm_after_other_charset"] = cnt.get("asm_after_other_charset", 0) + 1
         o = asm.assemble([("/c14/main.mac", src)], charset="bk", wall=30)
         if o.cls in ("stall",):
             return out
